@@ -26,9 +26,10 @@ func init() {
 		FaultsNotInjected: []string{"staking-record writes (AddStakingRecord/AddPendingRelationship) between Snapshot and Revert: not journalled by design and never reverted across in production (staking handlers fail before writing them); exercised outside snapshot windows only",
 			"RemoveValidator: exported but has no production caller"},
 		QuickBudget: 40 * time.Second, ThoroughBudget: 12 * time.Minute,
-		MinRuns: 50,
-		Exec:    runC09,
-		PanicClass: kit.PanicInRepo("state-panic"),
+		MinRuns:        50,
+		Exec:           runC09,
+		ExpectedProbes: []string{"revert-after-earlier-finalise", "revert-skipping-inner-snapshots", "inner-revert-with-outer-live", "continued-on-reopened-state", "contract-focus-run"},
+		PanicClass:     kit.PanicInRepo("state-panic"),
 	})
 }
 
